@@ -86,19 +86,69 @@ SEEDS2 = {
  'C20d': ('C20', 'S20', 'patch2.diff', 'demo2.py', 'rebuild re-submits sorted(queued_prs); needs queue order different from id order', True),
 }
 
+# third round: changes disguised as behaviour-preserving clean-ups (a
+# refactoring with one wrong detail): name: (property, deliverable dir,
+# patch, demo, what it breaks / needs, caught when first run?)
+SEEDS3 = {
+ 'C01d': ('C01', 'S01r3', 'patch.diff', 'demo.py', 'consecutive_merge refactored onto a helper; the fallback (opposite order) arm merges src2 twice and drops src1; needs the first merge order to conflict', True),
+ 'C01e': ('C01', 'S01r3', 'patch2.diff', 'demo2.py', 'cascade sorted with a key function, `minor or INF`: development/x.0 ranks like development/x (after every x.y); needs a minor version 0', True),
+ 'C02d': ('C02', 'S02r3', 'patch.diff', 'demo.py', '_remove_unmergeable rewritten with next(..., 0): a queue with no mergeable pull request keeps everything; needs a version whose queue holds only unmergeable pull requests (out of reach: value of the selection algorithm, see C05)', False),
+ 'C02e': ('C02', 'S02r3', 'patch2.diff', 'demo2.py', 'merge_queues with a guard clause, `*_, latest = mergeable`: the oldest mergeable queue branch is merged instead of the newest; needs >= 2 mergeable pull requests in a queue', True),
+ 'C03e': ('C03', 'S03r3', 'patch.diff', 'demo.py', '_first_failed_pr extracted from _recursive_lookup returns 0 at the first empty queue: later queues are never looked up; needs an empty queue before a red one', False),
+ 'C03f': ('C03', 'S03r3', 'patch2.diff', 'demo2.py', 'merge_queues fast-forwards the destination to the master queue q/x.y instead of the newest mergeable q/w branch; needs an unmergeable pull request on top of the queue', True),
+ 'C04e': ('C04', 'S04r3', 'patch.diff', 'demo.py', 'approval predicate extracted; the early exit passes the still-initial is_unanimous=True, losing the unanimity operand; needs unanimity required, every other requirement waived', True),
+ 'C04f': ('C04', 'S04r3', 'patch2.diff', 'demo2.py', 'locals author / robot introduced, peer_approvals = approvals - {robot}: the author counts as a peer; needs the author among the approvers', True),
+ 'C06d': ('C06', 'S06r3', 'patch.diff', 'demo.py', 'bypass helpers folded onto _is_bypassed, `.get(option, False)` became `option in job.author_bypass`; needs an author listed in pr_author_options without that bypass', True),
+ 'C06e': ('C06', 'S06r3', 'patch2.diff', 'demo2.py', 'check_in_sync as all(zip(children, children[1:])): the (source, first w/) pair is dropped; needs queue mode and a new source commit', False),
+ 'C07d': ('C07', 'S07r3', 'patch.diff', 'demo.py', 'option registration through _set_option(cls, ...), add_option forgets `authored`; needs an author-only option registered with add_option', False),
+ 'C07e': ('C07', 'S07r3', 'patch2.diff', 'demo2.py', 'PrAuthorsOptions.deserialize tests membership in the list accumulated over all users; needs >= 2 authors in pr_author_options', True),
+ 'C08c': ('C08', 'S08r3', 'patch.diff', 'demo.py', 'git_utils.push with a retry helper, `if not branches:` pushes everything for an empty selection; needs push(repo, []) (conflict on the first integration branch)', False),
+ 'C08d': ('C08', 'S08r3', 'patch2.diff', 'demo2.py', 'push_integration_branches keeps every IntegrationBranch, the ghost standing for the source branch included: the source branch is pushed by name; every pull request job', True),
+ 'C09e': ('C09', 'S09r3', 'patch.diff', 'demo.py', 'finalize split for hotfix destinations, the dangling-stabilization rejection is lost in the new walk; needs a hotfix destination and a stabilization branch without its development branch', False),
+ 'C09f': ('C09', 'S09r3', 'patch2.diff', 'demo2.py', 'get_merge_paths rewritten with dev_branches[index:], index counting version lines, not development branches; needs an earlier line without development branch (out of reach: value of the path algorithm)', False),
+ 'C10e': ('C10', 'S10r3', 'patch.diff', 'demo.py', 'Job.__init__ defaults to the shared module-level NO_SETTINGS dict: option values leak from job to job; needs two jobs built without explicit settings', False),
+ 'C10f': ('C10', 'S10r3', 'patch2.diff', 'demo2.py', 'find_comment with LAST_COMMENT_ONLY gives up at the first comment of anybody; needs a comment of somebody else after the robot\'s last message', True),
+ 'C11d': ('C11', 'S11r3', 'patch.diff', 'demo.py', '_fix_versions_match(expected, issue): arguments exchanged, the filters are applied to the wrong side; needs suffixed or hotfix versions', True),
+ 'C11e': ('C11', 'S11r3', 'patch2.diff', 'demo2.py', 'bypass helper tests `option in job.author_bypass`; needs an author listed without bypass_jira_check', True),
+ 'C12e': ('C12', 'S12r3', 'patch.diff', 'demo.py', 'class flags moved to a mixin taken from DevelopmentBranch: HotfixBranch becomes a cascade producer; needs a pull request whose source is hotfix/x.y.z', True),
+ 'C12f': ('C12', 'S12r3', 'patch2.diff', 'demo2.py', 'split_prefix helper tests the robot prefix on the unstripped text; needs a comment with leading blanks (wait, options, commands)', False),
+ 'C13e': ('C13', 'S13r3', 'patch.diff', 'demo.py', 'process_task split up, tasks_done.insert(0, job) raises on the full bounded deque inside finally: the worker dies; needs 1000 completed jobs', True),
+ 'C13f': ('C13', 'S13r3', 'patch2.diff', 'demo2.py', 'webhook handlers share _commit_job, which keeps only SUCCESSFUL / FAILED states: STOPPED and NOTSTARTED reports are dropped', True),
+ 'C14e': ('C14', 'S14r3', 'patch.diff', 'demo.py', 'bitbucket repository check folded into all(got != exp ...): a webhook is refused only if owner and slug both differ; needs a foreign repository with the same owner or the same name', False),
+ 'C14f': ('C14', 'S14r3', 'patch2.diff', 'demo2.py', 'BRANCH_REGEXP assembled with \'.\'.join: unescaped dots in the stabilization / hotfix alternatives; needs a name such as hotfix/1x2y3', False),
+ 'C15d': ('C15', 'S15r3', 'patch.diff', 'demo.py', '_reset refuses inside the analysis loop after deleting the branches analysed so far (per-branch pushes); needs the manual commit on a later integration branch', True),
+ 'C15e': ('C15', 'S15r3', 'patch2.diff', 'demo2.py', 'the manual-work flag is recomputed for every commit: only the last analysed commit counts; needs a manual commit followed by an old feature commit', False),
+ 'C16e': ('C16', 'S16r3', 'patch.diff', 'demo.py', 'mask_pwd hoisted to one module helper that passes bytes through unmasked; needs a command run without universal_newlines', True),
+ 'C16f': ('C16', 'S16r3', 'patch2.diff', 'demo2.py', 'cache refresh helper calls simplecmd.cmd instead of self.cmd: no mask_pwd; needs a failing `git fetch --prune` in the clone cache', True),
+ 'C17e': ('C17', 'S17r3', 'patch.diff', 'demo.py', 'AggregatedWorkflowRuns tidy-up groups the runs by workflow id instead of head branch: one green workflow makes the commit SUCCESSFUL', True),
+ 'C17f': ('C17', 'S17r3', 'patch2.diff', 'demo2.py', 'LRUCache.set makes room also when the key is already present: a full cache loses an entry on every update', True),
+ 'C18e': ('C18', 'S18r3', 'patch.diff', 'demo.py', 'QueueBranch destination from a format table, the hotfix entry keeps the hotfix revision (hotfix/x.y.z.n); needs a queue of a hotfix version', True),
+ 'C18f': ('C18', 'S18r3', 'patch2.diff', 'demo2.py', 'BRANCH_CLASSES re-flowed without UserBranch: user/* names are rejected', True),
+ 'C19f': ('C19', 'S19r3', 'patch.diff', 'test_demo.py', 'declined clean-up split into two helpers, `not (declined and removed)`: nothing is published unless both happened; needs only a pull request declined or only a branch removed', True),
+ 'C19g': ('C19', 'S19r3', 'patch2.diff', 'test_demo2.py', 'Repository.reset no longer forgets the ls-remote cache (moved to __init__): stale remote heads in the next job', True),
+ 'C20e': ('C20', 'S20r3', 'patch.diff', 'demo.py', 'create_branch split up, new_branch.create() without do_push=False: the branch is pushed before the cascade validation; needs a request refused only by that validation', True),
+ 'C20f': ('C20', 'S20r3', 'patch2.diff', 'demo2.py', 'delete_branch drops the checkout before tagging (exists() already did one, the queue collection moved HEAD since); needs queues and a q/ branch of another version', True),
+}
+
 
 def main():
     table = {k: (v[0], v[0], v[1], v[2], v[3], v[4]) for k, v in
              SEEDS.items()}
     if len(sys.argv) > 1 and sys.argv[1] == 'r2':
         table = {k: v for k, v in SEEDS2.items()}
+    elif len(sys.argv) > 1 and sys.argv[1] == 'r3':
+        table = {k: v for k, v in SEEDS3.items()}
     elif len(sys.argv) > 1 and sys.argv[1] == 'all':
         table.update(SEEDS2)
+        table.update(SEEDS3)
     for name, (prop, sdir, patch, demo, needs, caught0) in sorted(
             table.items()):
         src = '/tmp/seed/%s.out' % sdir
         dst = '/verif/seeded/%s' % name
         conf = '/tmp/seed/confirm/%s' % name
+        if name in SEEDS3:
+            conf = '/tmp/seed/confirm/%s_%s' % (
+                sdir, '2' if '2' in patch else '1')
         if not os.path.exists(os.path.join(src, patch)):
             print('skip', name)
             continue
@@ -130,7 +180,10 @@ def main():
                       'the property record and its own worktree of /repo' +
                       (' (second round: also told what the first round '
                        'had produced, asked for another mechanism)'
-                       if name in SEEDS2 else ''),
+                       if name in SEEDS2 else
+                       ' (third round: asked for a change disguised as a '
+                       'behaviour-preserving clean-up with one wrong detail)'
+                       if name in SEEDS3 else ''),
             'breaks_and_needs': needs,
             'files': {'patch': 'patch.diff', 'demonstration': demo},
             'confirmed_by_me': {
